@@ -2,9 +2,10 @@
     Only statements (closed by [exact <lemma>]), [Print Assumptions], and non-vacuity examples.
     Every statement is about the definitions GENERATED from /repo by tools/cxx2v (modules LV.Gen.Gen_xxx). *)
 
-Require Import ZArith List Bool.
-Require Import LV.Base.CInt LV.Proofs.C25_Bits LV.Proofs.C25_Reversal.
-Require LV.Gen.Gen_bit_reversal.
+Require Import ZArith List Bool Lia.
+Require Import LV.Base.CInt LV.Proofs.C25_Bits LV.Proofs.C25_Reversal LV.Proofs.C25_Bitop LV.Proofs.C25_Rbo
+  LV.Proofs.C25_Popcount LV.Proofs.C25_Bitop2 LV.Proofs.C25_IntAlgo LV.Proofs.C25_NumSplit.
+Require LV.Gen.Gen_bit_reversal LV.Gen.Gen_bitop LV.Gen.Gen_int_algo LV.Gen.Gen_split.
 Import ListNotations.
 Local Open Scope Z_scope.
 
@@ -77,9 +78,370 @@ Theorem reversals_involutive :
 Proof. exact all_reversals_involutive. Qed.
 Print Assumptions reversals_involutive.
 
+(** ** (b) cds/details/bitop_generic.h (the portable C versions; the amd64 inline-asm MSB/LSB variants are
+    compared with these by the differential sweep only) *)
+
+(** [msb x] = 0 for 0, else floor(log2 x) + 1.  [lowbit x k]: bit k is the lowest set bit.  [popcount w x]: number of
+    set bits among the low w bits (popcount_zero / popcount_step characterise it). *)
+
+Theorem msb_definition :
+  forall x, msb x = if x =? 0 then 0 else Z.log2 x + 1.
+Proof. exact (fun x => eq_refl (msb x)). Qed.
+Print Assumptions msb_definition.
+
+Theorem lowbit_meaning :
+  forall x k, 0 <= k -> lowbit x k -> Z.testbit x k = true /\ forall i, 0 <= i < k -> Z.testbit x i = false.
+Proof. exact lowbit_bits. Qed.
+Print Assumptions lowbit_meaning.
+
+Theorem popcount_zero :
+  forall x, popcount 0 x = 0.
+Proof. exact popcount_0. Qed.
+Print Assumptions popcount_zero.
+
+Theorem popcount_step :
+  forall w x, 0 <= w -> popcount (w + 1) x = popcount w x + Z.b2z (Z.testbit x w).
+Proof. exact popcount_succ. Qed.
+Print Assumptions popcount_step.
+
+Theorem msb32_correct :
+  forall x, 0 <= x < 2 ^ 32 -> Gen_bitop.msb32 x = Some (msb x).
+Proof. exact msb32_spec. Qed.
+Print Assumptions msb32_correct.
+
+Theorem msb32nz_correct :
+  forall x, 0 <= x < 2 ^ 32 -> Gen_bitop.msb32nz x = Some (msb x - 1).
+Proof. exact msb32nz_spec. Qed.
+Print Assumptions msb32nz_correct.
+
+Theorem lsb32_correct :
+  forall x, 0 <= x < 2 ^ 32 ->
+  match Gen_bitop.lsb32 x with Some r => lsb_ok x r /\ 0 <= r <= 32 | None => False end.
+Proof. exact lsb32_spec. Qed.
+Print Assumptions lsb32_correct.
+
+Theorem lsb32nz_correct :
+  forall x, 0 <= x < 2 ^ 32 -> x <> 0 ->
+  match Gen_bitop.lsb32nz x with Some r => lowbit x r /\ 0 <= r < 32 | None => False end.
+Proof. exact lsb32nz_spec. Qed.
+Print Assumptions lsb32nz_correct.
+
+Theorem rbo32_is_rev :
+  forall x, 0 <= x < 2 ^ 32 -> Gen_bitop.rbo32 x = Some (rev 32 x).
+Proof. exact C25_Rbo.rbo32_is_rev. Qed.
+Print Assumptions rbo32_is_rev.
+
+Theorem sbc32_is_popcount :
+  forall x, 0 <= x < 2 ^ 32 -> Gen_bitop.sbc32 x = Some (popcount 32 x).
+Proof. exact sbc32_spec. Qed.
+Print Assumptions sbc32_is_popcount.
+
+Theorem zbc32_correct :
+  forall x, 0 <= x < 2 ^ 32 -> Gen_bitop.zbc32 x = Some (32 - popcount 32 x).
+Proof. exact zbc32_spec. Qed.
+Print Assumptions zbc32_correct.
+
+Theorem complement32_correct :
+  forall p n, 0 <= p < 2 ^ 32 -> 0 <= n < 32 ->
+  Gen_bitop.complement32 p n = Some (Z.testbit p n, Z.lxor p (2 ^ n)).
+Proof. exact complement32_spec. Qed.
+Print Assumptions complement32_correct.
+
+Theorem complement32_bad_bit_is_UB :
+  forall p n, ~ (0 <= n < 32) -> Gen_bitop.complement32 p n = None.
+Proof. exact complement32_ub. Qed.
+Print Assumptions complement32_bad_bit_is_UB.
+
+Theorem isPow2_32_correct :
+  forall x, 0 <= x < 2 ^ 32 -> exists b, Gen_bitop.isPow2_32 x = Some b /\ (b = true <-> is_pow2_below 32 x).
+Proof. exact isPow2_32_spec. Qed.
+Print Assumptions isPow2_32_correct.
+
+Theorem msb64_correct :
+  forall x, 0 <= x < 2 ^ 64 -> Gen_bitop.msb64 x = Some (msb x).
+Proof. exact msb64_spec. Qed.
+Print Assumptions msb64_correct.
+
+Theorem msb64nz_correct :
+  forall x, 0 <= x < 2 ^ 64 -> Gen_bitop.msb64nz x = Some (msb x - 1).
+Proof. exact msb64nz_spec. Qed.
+Print Assumptions msb64nz_correct.
+
+Theorem lsb64_correct :
+  forall x, 0 <= x < 2 ^ 64 ->
+  match Gen_bitop.lsb64 x with Some r => lsb_ok x r /\ 0 <= r <= 64 | None => False end.
+Proof. exact lsb64_spec. Qed.
+Print Assumptions lsb64_correct.
+
+Theorem lsb64nz_correct :
+  forall x, 0 <= x < 2 ^ 64 -> x <> 0 ->
+  match Gen_bitop.lsb64nz x with Some r => lowbit x r /\ 0 <= r < 64 | None => False end.
+Proof. exact lsb64nz_spec. Qed.
+Print Assumptions lsb64nz_correct.
+
+Theorem rbo64_is_rev :
+  forall x, 0 <= x < 2 ^ 64 -> Gen_bitop.rbo64 x = Some (rev 64 x).
+Proof. exact C25_Rbo.rbo64_is_rev. Qed.
+Print Assumptions rbo64_is_rev.
+
+Theorem sbc64_is_popcount :
+  forall x, 0 <= x < 2 ^ 64 -> Gen_bitop.sbc64 x = Some (popcount 64 x).
+Proof. exact sbc64_spec. Qed.
+Print Assumptions sbc64_is_popcount.
+
+Theorem zbc64_correct :
+  forall x, 0 <= x < 2 ^ 64 -> Gen_bitop.zbc64 x = Some (64 - popcount 64 x).
+Proof. exact zbc64_spec. Qed.
+Print Assumptions zbc64_correct.
+
+Theorem complement64_correct :
+  forall p n, 0 <= p < 2 ^ 64 -> 0 <= n < 64 ->
+  Gen_bitop.complement64 p n = Some (Z.testbit p n, Z.lxor p (2 ^ n)).
+Proof. exact complement64_spec. Qed.
+Print Assumptions complement64_correct.
+
+Theorem complement64_bad_bit_is_UB :
+  forall p n, ~ (0 <= n < 64) -> Gen_bitop.complement64 p n = None.
+Proof. exact complement64_ub. Qed.
+Print Assumptions complement64_bad_bit_is_UB.
+
+Theorem isPow2_64_correct :
+  forall x, 0 <= x < 2 ^ 64 -> exists b, Gen_bitop.isPow2_64 x = Some b /\ (b = true <-> is_pow2_below 64 x).
+Proof. exact isPow2_64_spec. Qed.
+Print Assumptions isPow2_64_correct.
+
+Theorem complement_flips_exactly_that_bit :
+  forall p n i, 0 <= n -> 0 <= i -> Z.testbit (Z.lxor p (2 ^ n)) i = xorb (Z.testbit p i) (i =? n).
+Proof. exact lxor_pow2_bits. Qed.
+Print Assumptions complement_flips_exactly_that_bit.
+
+(** The public templates cds::bitop::X<T> and details::BitOps<sizeof T>::X are these functions. *)
+
+Theorem public_bitops32_are_platform_functions :
+  forall x,
+  Gen_bitop.MSB_u32 x = Gen_bitop.msb32 x /\ Gen_bitop.LSB_u32 x = Gen_bitop.lsb32 x /\ Gen_bitop.MSBnz_u32 x = Gen_bitop.msb32nz x /\
+  Gen_bitop.LSBnz_u32 x = Gen_bitop.lsb32nz x /\ Gen_bitop.SBC_u32 x = Gen_bitop.sbc32 x /\ Gen_bitop.ZBC_u32 x = Gen_bitop.zbc32 x /\
+  Gen_bitop.RBO_u32 x = Gen_bitop.rbo32 x /\ Gen_bitop.BitOps4_MSB x = Gen_bitop.msb32 x /\ Gen_bitop.BitOps4_LSB x = Gen_bitop.lsb32 x /\
+  Gen_bitop.BitOps4_MSBnz x = Gen_bitop.msb32nz x /\ Gen_bitop.BitOps4_LSBnz x = Gen_bitop.lsb32nz x /\
+  Gen_bitop.BitOps4_SBC x = Gen_bitop.sbc32 x /\ Gen_bitop.BitOps4_ZBC x = Gen_bitop.zbc32 x /\ Gen_bitop.BitOps4_RBO x = Gen_bitop.rbo32 x.
+Proof. exact wrappers32. Qed.
+Print Assumptions public_bitops32_are_platform_functions.
+
+Theorem complement_u32_correct :
+  forall p n, 0 <= p < 2 ^ 32 -> 0 <= n < 32 ->
+  Gen_bitop.complement_u32 p n = Some (Z.testbit p n, Z.lxor p (2 ^ n)) /\
+  Gen_bitop.BitOps4_complement p n = Some (Z.testbit p n, Z.lxor p (2 ^ n)).
+Proof. exact complement_u32_spec. Qed.
+Print Assumptions complement_u32_correct.
+
+Theorem complement_u32_bad_bit_is_UB :
+  forall p n, - 2 ^ 31 <= n < 2 ^ 31 -> ~ (0 <= n < 32) -> Gen_bitop.complement_u32 p n = None.
+Proof. exact complement_u32_ub. Qed.
+Print Assumptions complement_u32_bad_bit_is_UB.
+
+Theorem public_bitops64_are_platform_functions :
+  forall x,
+  Gen_bitop.MSB_u64 x = Gen_bitop.msb64 x /\ Gen_bitop.LSB_u64 x = Gen_bitop.lsb64 x /\ Gen_bitop.MSBnz_u64 x = Gen_bitop.msb64nz x /\
+  Gen_bitop.LSBnz_u64 x = Gen_bitop.lsb64nz x /\ Gen_bitop.SBC_u64 x = Gen_bitop.sbc64 x /\ Gen_bitop.ZBC_u64 x = Gen_bitop.zbc64 x /\
+  Gen_bitop.RBO_u64 x = Gen_bitop.rbo64 x /\ Gen_bitop.BitOps8_MSB x = Gen_bitop.msb64 x /\ Gen_bitop.BitOps8_LSB x = Gen_bitop.lsb64 x /\
+  Gen_bitop.BitOps8_MSBnz x = Gen_bitop.msb64nz x /\ Gen_bitop.BitOps8_LSBnz x = Gen_bitop.lsb64nz x /\
+  Gen_bitop.BitOps8_SBC x = Gen_bitop.sbc64 x /\ Gen_bitop.BitOps8_ZBC x = Gen_bitop.zbc64 x /\ Gen_bitop.BitOps8_RBO x = Gen_bitop.rbo64 x.
+Proof. exact wrappers64. Qed.
+Print Assumptions public_bitops64_are_platform_functions.
+
+Theorem complement_u64_correct :
+  forall p n, 0 <= p < 2 ^ 64 -> 0 <= n < 64 ->
+  Gen_bitop.complement_u64 p n = Some (Z.testbit p n, Z.lxor p (2 ^ n)) /\
+  Gen_bitop.BitOps8_complement p n = Some (Z.testbit p n, Z.lxor p (2 ^ n)).
+Proof. exact complement_u64_spec. Qed.
+Print Assumptions complement_u64_correct.
+
+Theorem complement_u64_bad_bit_is_UB :
+  forall p n, - 2 ^ 31 <= n < 2 ^ 31 -> ~ (0 <= n < 64) -> Gen_bitop.complement_u64 p n = None.
+Proof. exact complement_u64_ub. Qed.
+Print Assumptions complement_u64_bad_bit_is_UB.
+
+(** ** (c) cds/algo/int_algo.h (size_t = 64 bits) *)
+
+Theorem log2floor_correct :
+  forall n, 0 <= n < 2 ^ 64 -> Gen_int_algo.log2floor n = Some (Z.log2 n).
+Proof. exact log2floor_spec. Qed.
+Print Assumptions log2floor_correct.
+
+Theorem log2ceil_correct :
+  forall n, 0 <= n < 2 ^ 64 -> Gen_int_algo.log2ceil n = Some (Z.log2_up n).
+Proof. exact log2ceil_spec. Qed.
+Print Assumptions log2ceil_correct.
+
+Theorem floor2_correct :
+  forall n, 0 <= n < 2 ^ 64 -> Gen_int_algo.floor2 n = Some (2 ^ Z.log2 n).
+Proof. exact floor2_spec. Qed.
+Print Assumptions floor2_correct.
+
+Theorem ceil2_correct :
+  forall n, 0 <= n <= 2 ^ 63 -> Gen_int_algo.ceil2 n = Some (2 ^ Z.log2_up n).
+Proof. exact ceil2_spec. Qed.
+Print Assumptions ceil2_correct.
+
+Theorem ceil2_above_2_63_is_UB :
+  forall n, 2 ^ 63 < n < 2 ^ 64 -> Gen_int_algo.ceil2 n = None.
+Proof. exact ceil2_overflow. Qed.
+Print Assumptions ceil2_above_2_63_is_UB.
+
+Theorem is_power2_correct :
+  forall n, 0 <= n < 2 ^ 64 -> exists b, Gen_int_algo.is_power2 n = Some b /\ (b = true <-> is_pow2_below 64 n).
+Proof. exact is_power2_spec. Qed.
+Print Assumptions is_power2_correct.
+
+Theorem log2_correct :
+  forall n, 0 <= n < 2 ^ 64 ->
+  (is_pow2_below 64 n -> Gen_int_algo.log2 n = Some (Z.log2 n)) /\ (~ is_pow2_below 64 n -> Gen_int_algo.log2 n = Some 0).
+Proof. exact log2_spec. Qed.
+Print Assumptions log2_correct.
+
+(** ** (d) cds/algo/split_bitstring.h : number_splitter<Int>
+    [run cut st widths] applies cut successively; [joinf] concatenates (value, width) fields, first field lowest;
+    a width is legal when [1 <= c < 8*sizeof(Int)] (is_correct); [clip] is the width actually delivered by safe_cut. *)
+
+Theorem number_splitter_i16_cut_sequence_reconstructs :
+  forall n cs, ok_i16 n -> Forall (legal 16) cs -> zsum cs = 16 ->
+  exists vs, run Gen_split.ns_i16 Gen_split.ns_i16_cut (Gen_split.mk_ns_i16 n 0) cs = Some (vs, Gen_split.mk_ns_i16 n 16) /\
+             length vs = length cs /\ joinf (combine vs cs) = n mod 2 ^ 16.
+Proof. exact ns_i16_cut_sequence. Qed.
+Print Assumptions number_splitter_i16_cut_sequence_reconstructs.
+
+Theorem number_splitter_i16_safe_cut_sequence_reconstructs :
+  forall n cs, ok_i16 n -> Forall (legal 16) cs -> 16 <= zsum cs ->
+  exists vs, run Gen_split.ns_i16 Gen_split.ns_i16_safe_cut (Gen_split.mk_ns_i16 n 0) cs = Some (vs, Gen_split.mk_ns_i16 n 16) /\
+             length vs = length cs /\ joinf (combine vs (clip 16 0 cs)) = n mod 2 ^ 16.
+Proof. exact ns_i16_safe_cut_sequence. Qed.
+Print Assumptions number_splitter_i16_safe_cut_sequence_reconstructs.
+
+Theorem number_splitter_u16_cut_sequence_reconstructs :
+  forall n cs, ok_u16 n -> Forall (legal 16) cs -> zsum cs = 16 ->
+  exists vs, run Gen_split.ns_u16 Gen_split.ns_u16_cut (Gen_split.mk_ns_u16 n 0) cs = Some (vs, Gen_split.mk_ns_u16 n 16) /\
+             length vs = length cs /\ joinf (combine vs cs) = n mod 2 ^ 16.
+Proof. exact ns_u16_cut_sequence. Qed.
+Print Assumptions number_splitter_u16_cut_sequence_reconstructs.
+
+Theorem number_splitter_u16_safe_cut_sequence_reconstructs :
+  forall n cs, ok_u16 n -> Forall (legal 16) cs -> 16 <= zsum cs ->
+  exists vs, run Gen_split.ns_u16 Gen_split.ns_u16_safe_cut (Gen_split.mk_ns_u16 n 0) cs = Some (vs, Gen_split.mk_ns_u16 n 16) /\
+             length vs = length cs /\ joinf (combine vs (clip 16 0 cs)) = n mod 2 ^ 16.
+Proof. exact ns_u16_safe_cut_sequence. Qed.
+Print Assumptions number_splitter_u16_safe_cut_sequence_reconstructs.
+
+Theorem number_splitter_i32_cut_sequence_reconstructs :
+  forall n cs, ok_i32 n -> Forall (legal 32) cs -> zsum cs = 32 ->
+  exists vs, run Gen_split.ns_i32 Gen_split.ns_i32_cut (Gen_split.mk_ns_i32 n 0) cs = Some (vs, Gen_split.mk_ns_i32 n 32) /\
+             length vs = length cs /\ joinf (combine vs cs) = n mod 2 ^ 32.
+Proof. exact ns_i32_cut_sequence. Qed.
+Print Assumptions number_splitter_i32_cut_sequence_reconstructs.
+
+Theorem number_splitter_i32_safe_cut_sequence_reconstructs :
+  forall n cs, ok_i32 n -> Forall (legal 32) cs -> 32 <= zsum cs ->
+  exists vs, run Gen_split.ns_i32 Gen_split.ns_i32_safe_cut (Gen_split.mk_ns_i32 n 0) cs = Some (vs, Gen_split.mk_ns_i32 n 32) /\
+             length vs = length cs /\ joinf (combine vs (clip 32 0 cs)) = n mod 2 ^ 32.
+Proof. exact ns_i32_safe_cut_sequence. Qed.
+Print Assumptions number_splitter_i32_safe_cut_sequence_reconstructs.
+
+Theorem number_splitter_u32_cut_sequence_reconstructs :
+  forall n cs, ok_u32 n -> Forall (legal 32) cs -> zsum cs = 32 ->
+  exists vs, run Gen_split.ns_u32 Gen_split.ns_u32_cut (Gen_split.mk_ns_u32 n 0) cs = Some (vs, Gen_split.mk_ns_u32 n 32) /\
+             length vs = length cs /\ joinf (combine vs cs) = n mod 2 ^ 32.
+Proof. exact ns_u32_cut_sequence. Qed.
+Print Assumptions number_splitter_u32_cut_sequence_reconstructs.
+
+Theorem number_splitter_u32_safe_cut_sequence_reconstructs :
+  forall n cs, ok_u32 n -> Forall (legal 32) cs -> 32 <= zsum cs ->
+  exists vs, run Gen_split.ns_u32 Gen_split.ns_u32_safe_cut (Gen_split.mk_ns_u32 n 0) cs = Some (vs, Gen_split.mk_ns_u32 n 32) /\
+             length vs = length cs /\ joinf (combine vs (clip 32 0 cs)) = n mod 2 ^ 32.
+Proof. exact ns_u32_safe_cut_sequence. Qed.
+Print Assumptions number_splitter_u32_safe_cut_sequence_reconstructs.
+
+Theorem number_splitter_i64_cut_sequence_reconstructs :
+  forall n cs, ok_i64 n -> Forall (legal 64) cs -> zsum cs = 64 ->
+  exists vs, run Gen_split.ns_i64 Gen_split.ns_i64_cut (Gen_split.mk_ns_i64 n 0) cs = Some (vs, Gen_split.mk_ns_i64 n 64) /\
+             length vs = length cs /\ joinf (combine vs cs) = n mod 2 ^ 64.
+Proof. exact ns_i64_cut_sequence. Qed.
+Print Assumptions number_splitter_i64_cut_sequence_reconstructs.
+
+Theorem number_splitter_i64_safe_cut_sequence_reconstructs :
+  forall n cs, ok_i64 n -> Forall (legal 64) cs -> 64 <= zsum cs ->
+  exists vs, run Gen_split.ns_i64 Gen_split.ns_i64_safe_cut (Gen_split.mk_ns_i64 n 0) cs = Some (vs, Gen_split.mk_ns_i64 n 64) /\
+             length vs = length cs /\ joinf (combine vs (clip 64 0 cs)) = n mod 2 ^ 64.
+Proof. exact ns_i64_safe_cut_sequence. Qed.
+Print Assumptions number_splitter_i64_safe_cut_sequence_reconstructs.
+
+Theorem number_splitter_u64_cut_sequence_reconstructs :
+  forall n cs, ok_u64 n -> Forall (legal 64) cs -> zsum cs = 64 ->
+  exists vs, run Gen_split.ns_u64 Gen_split.ns_u64_cut (Gen_split.mk_ns_u64 n 0) cs = Some (vs, Gen_split.mk_ns_u64 n 64) /\
+             length vs = length cs /\ joinf (combine vs cs) = n mod 2 ^ 64.
+Proof. exact ns_u64_cut_sequence. Qed.
+Print Assumptions number_splitter_u64_cut_sequence_reconstructs.
+
+Theorem number_splitter_u64_safe_cut_sequence_reconstructs :
+  forall n cs, ok_u64 n -> Forall (legal 64) cs -> 64 <= zsum cs ->
+  exists vs, run Gen_split.ns_u64 Gen_split.ns_u64_safe_cut (Gen_split.mk_ns_u64 n 0) cs = Some (vs, Gen_split.mk_ns_u64 n 64) /\
+             length vs = length cs /\ joinf (combine vs (clip 64 0 cs)) = n mod 2 ^ 64.
+Proof. exact ns_u64_safe_cut_sequence. Qed.
+Print Assumptions number_splitter_u64_safe_cut_sequence_reconstructs.
+
+Theorem number_splitter_i64ll_cut_sequence_reconstructs :
+  forall n cs, ok_i64ll n -> Forall (legal 64) cs -> zsum cs = 64 ->
+  exists vs, run Gen_split.ns_i64ll Gen_split.ns_i64ll_cut (Gen_split.mk_ns_i64ll n 0) cs = Some (vs, Gen_split.mk_ns_i64ll n 64) /\
+             length vs = length cs /\ joinf (combine vs cs) = n mod 2 ^ 64.
+Proof. exact ns_i64ll_cut_sequence. Qed.
+Print Assumptions number_splitter_i64ll_cut_sequence_reconstructs.
+
+Theorem number_splitter_i64ll_safe_cut_sequence_reconstructs :
+  forall n cs, ok_i64ll n -> Forall (legal 64) cs -> 64 <= zsum cs ->
+  exists vs, run Gen_split.ns_i64ll Gen_split.ns_i64ll_safe_cut (Gen_split.mk_ns_i64ll n 0) cs = Some (vs, Gen_split.mk_ns_i64ll n 64) /\
+             length vs = length cs /\ joinf (combine vs (clip 64 0 cs)) = n mod 2 ^ 64.
+Proof. exact ns_i64ll_safe_cut_sequence. Qed.
+Print Assumptions number_splitter_i64ll_safe_cut_sequence_reconstructs.
+
+Theorem number_splitter_u64ll_cut_sequence_reconstructs :
+  forall n cs, ok_u64ll n -> Forall (legal 64) cs -> zsum cs = 64 ->
+  exists vs, run Gen_split.ns_u64ll Gen_split.ns_u64ll_cut (Gen_split.mk_ns_u64ll n 0) cs = Some (vs, Gen_split.mk_ns_u64ll n 64) /\
+             length vs = length cs /\ joinf (combine vs cs) = n mod 2 ^ 64.
+Proof. exact ns_u64ll_cut_sequence. Qed.
+Print Assumptions number_splitter_u64ll_cut_sequence_reconstructs.
+
+Theorem number_splitter_u64ll_safe_cut_sequence_reconstructs :
+  forall n cs, ok_u64ll n -> Forall (legal 64) cs -> 64 <= zsum cs ->
+  exists vs, run Gen_split.ns_u64ll Gen_split.ns_u64ll_safe_cut (Gen_split.mk_ns_u64ll n 0) cs = Some (vs, Gen_split.mk_ns_u64ll n 64) /\
+             length vs = length cs /\ joinf (combine vs (clip 64 0 cs)) = n mod 2 ^ 64.
+Proof. exact ns_u64ll_safe_cut_sequence. Qed.
+Print Assumptions number_splitter_u64ll_safe_cut_sequence_reconstructs.
+
+(** Inputs the code does not reject: safe_cut(width) on a fresh 32/64-bit number is undefined behaviour. *)
+
+Theorem number_splitter_safe_cut_full_width_is_UB :
+  (forall n, Gen_split.ns_u32_safe_cut (Gen_split.mk_ns_u32 n 0) 32 = None) /\
+  (forall n, Gen_split.ns_i32_safe_cut (Gen_split.mk_ns_i32 n 0) 32 = None) /\
+  (forall n, Gen_split.ns_u64_safe_cut (Gen_split.mk_ns_u64 n 0) 64 = None) /\
+  (forall n, Gen_split.ns_i64_safe_cut (Gen_split.mk_ns_i64 n 0) 64 = None).
+Proof. exact (conj ns_u32_safe_cut_full_width_ub (conj ns_i32_safe_cut_full_width_ub (conj ns_u64_safe_cut_full_width_ub ns_i64_safe_cut_full_width_ub))). Qed.
+Print Assumptions number_splitter_safe_cut_full_width_is_UB.
+
 Example rev_nonvacuous :
   rev 32 0x00000001 = 0x80000000 /\ rev 32 0x12345678 = 0x1e6a2c48 /\
   Gen_bit_reversal.swar_u32 0x12345678 = Some 0x1e6a2c48 /\
   Gen_bit_reversal.lookup_u64 0x0123456789abcdef = Some 0xf7b3d591e6a2c480 /\
   Gen_bit_reversal.muldiv_u64 0x0123456789abcdef = Some 0xf7b3d591e6a2c480.
 Proof. vm_compute. repeat split. Qed.
+
+Example bitop_nonvacuous :
+  Gen_bitop.msb32 0x00010000 = Some 17 /\ Gen_bitop.lsb64 0x0000100000000000 = Some 45 /\
+  Gen_bitop.sbc32 0xf0f01234 = Some 13 /\ Gen_bitop.complement32 5 31 = Some (false, 0x80000005) /\
+  Gen_bitop.complement32 5 32 = None /\ Gen_int_algo.ceil2 17 = Some 32 /\ Gen_int_algo.log2ceil 1025 = Some 11 /\
+  Gen_int_algo.floor2 0 = Some 1.
+Proof. vm_compute. repeat split. Qed.
+
+Example number_splitter_nonvacuous :
+  Forall (legal 32) [4; 12; 9; 7] /\ zsum [4; 12; 9; 7] = 32 /\ ok_i32 (-2) /\
+  run Gen_split.ns_i32 Gen_split.ns_i32_cut (Gen_split.mk_ns_i32 (-2) 0) [4; 12; 9; 7]
+    = Some ([14; 4095; 511; 127], Gen_split.mk_ns_i32 (-2) 32) /\
+  joinf (combine [14; 4095; 511; 127] [4; 12; 9; 7]) = (-2) mod 2 ^ 32.
+Proof. split; [repeat constructor; unfold legal; lia|]. vm_compute. repeat split; intros; discriminate. Qed.
